@@ -28,7 +28,7 @@ fn fit_cfg() -> Cfg {
     c
 }
 
-fn edit_list(ch: &mut Ch, sigs: &mut Vec<Sig>, b: &Built, log: &mut Vec<String>) {
+pub fn edit_list(ch: &mut Ch, sigs: &mut Vec<Sig>, b: &Built, log: &mut Vec<String>) {
     if sigs.is_empty() {
         return;
     }
